@@ -170,7 +170,8 @@ def gen_rules(rnd, depth=0, heads=None, opts=None):
                     # the children rules of both apply
                     spec = list(toks)
                     spec[spec.index("*")] = rnd.choice(WORDS[:4])
-                    rules.append(rule(spec, gen_rules(rnd, depth + 1, [x + str(depth) + "s" for x in HEADS[:4]], opts)))
+                    if " ".join(spec) not in {" ".join(x["toks"]) for x in rules}:     # (one rule per rule text)
+                        rules.append(rule(spec, gen_rules(rnd, depth + 1, [x + str(depth) + "s" for x in HEADS[:4]], opts)))
         elif depth < 2 and kind < 0.48 and opts.get("ordered", True):
             if depth < 1 and rnd.random() < 0.35 and opts.get("ordered_blocks", True):
                 # %ordered BLOCK rules (entries that have their own children), e.g. numbered policy nodes
